@@ -4,19 +4,19 @@ CONSTANTS
   Names = {"a.example"}
   Types = {"A"}
   Cases = {0}
-  AdVals = {FALSE, TRUE}
+  AdVals = {FALSE}
   CdVals = {FALSE}
   DoVals = {FALSE, TRUE}
-  RdVals = {FALSE, TRUE}
+  RdVals = {TRUE}
   WithBypass = FALSE
-  Classes <- AllClasses
-  TtlVecs <- TV_All
-  AdBits = {FALSE, TRUE}
-  Ticks <- TK_Sim
-  Configs <- CfgsAll
-  MaxSteps = 16
+  Classes = {"answer"}
+  TtlVecs <- TV_One
+  AdBits = {TRUE}
+  Ticks = {500}
+  Configs <- CfgsDefault
+  MaxSteps = 2
   RouteMode <- RouteModeAll
-SPECIFICATION SimSpec
+SPECIFICATION GSpec
 INVARIANT Emit
 INVARIANT GProp
 CHECK_DEADLOCK FALSE
